@@ -109,6 +109,14 @@ def generate(rng, tier):
         calls = sum([[("motors_on",) + r, ("motors_query",)] for r in seq], [])
         if rng.random() < 0.2: calls.insert(rng.randrange(len(calls)), ("motors_off",))
         cases.append({"board": _board(rng), "calls": calls, "family": "motors/runs-of-requests"})
+    # the variable store is the user's: whatever it holds (small numbers that look like scales, in the last slots too - the low byte of
+    # a 32-bit value at slot 28 is slot 31) must not influence a motor request, and a motor request must not touch it
+    for r2 in range(1, 6):
+        for md in range(1, 6):
+            if md == r2 and rng.random() < 0.7: continue
+            bd = _board(rng); bd.update(en1=False, en2=False, mode=md); bd["slots"] = [rng.choice([r2, 0, 1, 5]) for _ in range(28)] + [0, 0, 0, r2]
+            pre = rng.choice([[], [("var_write32", r2, 28)], [("var_write", r2, 31), ("var_write", md, 30)]])
+            cases.append({"board": bd, "calls": pre + [("motors_on", 0, r2), ("motors_query",), ("var_read", 31), ("var_read32", 28)], "family": "motors/variable-store-holds-scales"})
     for nk in NICKS:
         cases.append({"board": _board(rng), "calls": [("write_nick", nk), ("query_nick",), ("query", "QT"), ("query_nick",)], "family": "nickname/systematic"})
     # renaming a board the object already knows: to another spelling of the same letters, to a padded copy, to a prefix / extension, and back
